@@ -231,20 +231,27 @@ def pipeBindNoClose : Op :=
     { eff := [.fdOpen], fault := some .sys, undo := [.free] },
     { eff := [], fault := some .sys, undo := [.free] } ]
 
-/-- `uv_spawn` up to the point where the handle is started (unix/process.c:1021-1112): optional heap array
-for more than 8 stdio containers, one socketpair per CREATE_PIPE container, then the fork machinery
-(signal pipe + fork, one fault point).  The `error:` exit closes every pipe end opened so far and frees the array.
-On success the parent closes the child's ends, keeps its own, queues and starts the handle. -/
+/-- `uv_spawn` (unix/process.c:1021-1112): optional heap array for more than 8 stdio containers, one socketpair per
+CREATE_PIPE container (a failure takes the `error:` exit: every pipe end opened so far is closed, the array freed),
+then the fork machinery (signal pipe + fork, one fault point).  On success the parent closes the child's ends,
+keeps its own, queues and starts the handle. -/
 def spawnPairs (heap : Bool) : Nat → Nat → List Step
   | 0, _ => []
   | n + 1, i => { eff := [.fdOpen, .fdOpen], fault := some .sys,
                   undo := rep (2 * i) .fdClose ++ (if heap then [.free] else []), label := "sys:socketpair" }
                 :: spawnPairs heap n (i + 1)
 
-def uvSpawn (npipes : Nat) (heap : Bool) : Op :=
+/-- the part of `uv_spawn` before the fork machinery: its error exits go to `error:` and release everything -/
+def uvSpawnPre (npipes : Nat) (heap : Bool) : Op :=
   (if heap then [ { eff := [.alloc], fault := some .alloc, undo := [], label := "alloc" } ] else []) ++
-  spawnPairs heap npipes 0 ++
-  [ { eff := [], fault := some .sys, undo := rep (2 * npipes) .fdClose ++ (if heap then [.free] else []), label := "sys:fork" },
+  spawnPairs heap npipes 0
+
+/-- the whole call.  A failing fork (or signal pipe) does *not* take the `error:` exit (process.c:1046-1052, the
+`#if 0` block): the stdio streams are opened all the same — the child's ends are closed, the parent's ends stay
+open inside the caller's uv_pipe_t handles (released by uv_close) — the handle is not started and the code is returned. -/
+def uvSpawn (npipes : Nat) (heap : Bool) : Op :=
+  uvSpawnPre npipes heap ++
+  [ { eff := [], fault := some .sys, undo := rep npipes .fdClose ++ (if heap then [.free] else []), label := "sys:fork" },
     { eff := rep npipes .fdClose ++ (if heap then [.free] else []) ++ [.enq, .hStart], label := "parent" } ]
 
 /-- `uv_fs_poll_start` (fs-poll.c:66-112): context allocation; uv_timer_init links the timer into
